@@ -759,3 +759,20 @@ Fixpoint crun (keys : nat -> Z) (s : cstate) (ts : list nat) : option cstate :=
   | [] => Some s
   | t :: ts' => match cstep keys s t with Some s' => crun keys s' ts' | None => None end
   end.
+
+(* ---------------------------------------------------------------------------------------- *)
+(* (7) a per-process memo keyed by a caller-chosen LABEL (key id, key name, algorithm string) in   *)
+(* front of a function of the key MATERIAL (not in the tree: crypto extracts the raw key from the   *)
+(* JWK on every call).  A call is (label, material); the right answer is the material's own.        *)
+
+Definition mcall (memo : list (Z * Z)) (c : Z * Z) : list (Z * Z) * Z :=
+  match find (fun p : Z * Z => (fst p =? fst c)%Z) memo with
+  | Some p => (memo, snd p)
+  | None => (c :: memo, snd c)
+  end.
+
+Fixpoint mrun (memo : list (Z * Z)) (calls : list (Z * Z)) : list Z :=
+  match calls with
+  | [] => []
+  | c :: rest => let '(memo', r) := mcall memo c in r :: mrun memo' rest
+  end.
